@@ -214,6 +214,12 @@ EXTERN_CONTAINERS = {
 }
 
 
+# (1f) options read while generic variants are expanded (assumed rank): the function's own scope decides
+ARANK_BASE = EXTERN_BASE.replace("int top_count(int n)", "int top_count(double *v +dimension(..), int n)").replace(
+    "double scale(double x, int n)", "double scale(double *x +dimension(..), int n)").replace(
+    "int depth(int n)", "int depth(int *v +dimension(..))").replace("int inside(int n)", "int inside(float *v +dimension(..))")
+
+
 # (1d) enumerations: a setting on the enum declaration itself == the same setting on a block that holds only that enum
 ENUM_BASE = """\
 library: En
@@ -386,6 +392,13 @@ declarations:
 - decl: void f2(int s)
 - decl: enum Color { RED, BLUE }
 - decl: double f3(double *v +rank(1))
+- decl: namespace inner
+  declarations:
+  - decl: int inner_func(int n)
+  - decl: class Counter
+    declarations:
+    - decl: Counter()
+    - decl: void add(int n)
 """
 
 
@@ -497,6 +510,15 @@ def run(ctx):
     for container in EXTERN_CONTAINERS:
         a, b = placement_pair(xbase, "options", "C_extern_C", True, container, EXTERN_CONTAINERS)
         add(("placement", "options", "C_extern_C", "extern-" + container), a, b)
+    abase = yaml.safe_load(ARANK_BASE)
+    for oname, oval in (("F_assumed_rank_max", 2), ("F_assumed_rank_min", 1)):
+        for container in EXTERN_CONTAINERS:
+            a, b = placement_pair(abase, "options", oname, oval, container, EXTERN_CONTAINERS)
+            add(("placement", "options", oname, "arank-" + container), a, b)
+            if container != "library":
+                # and it acts there: the output differs from the unset description
+                k[0] += 1
+                jobs.append((os.path.join(wd, "j%d" % k[0]), ("enum-setting-acts", oname, oval, "arank-" + container), a, abase, [], [], False, None, "differ"))
     ebase = yaml.safe_load(ENUM_BASE)
     for kind, name, value in ENUM_SETTINGS:
         for site in ENUM_SITES:
@@ -638,7 +660,8 @@ def run(ctx):
                 what = "option %s=%s on the enum declaration (%s scope) differs from the same option on a block holding only that enum:\n%s" % (label[1:4] + (info,))
             elif kind == "enum-setting-acts":
                 key = "enum-setting-acts %s=%s@%s" % label[1:4]
-                what = "option %s=%s on the enum declaration (%s scope): %s" % (label[1:4] + (info,))
+                what = ("option %s=%s on the %s: %s" % (label[1], label[2], label[3][len("arank-"):], info)) if str(label[3]).startswith("arank-") else (
+                    "option %s=%s on the enum declaration (%s scope): %s" % (label[1:4] + (info,)))
             elif kind == "blocks":
                 key = "blocks %s" % label[1]
                 what = "grouping %s into empty blocks changes the output:\n%s" % (label[1], info)
